@@ -290,6 +290,12 @@ Definition itab_strings (t : list ins_entry) : list (list cluster) :=
 Definition rtab_strings (t : list rep_entry) : list (list cluster) :=
   flat_map (fun en => map fst (snd en)) t.
 
+(** code-point mode: every cluster is one code point *)
+Definition singles (w : word) : Prop := Forall (fun c : cluster => length c = 1) w.
+Definition cp_cfg (c : cfg) : Prop :=
+  (forall e, In e (itab_strings (itab c)) -> singles e) /\
+  (forall e, In e (rtab_strings (rtab c)) -> singles e).
+
 Definition spec_cands (c : cfg) (w : word) (ex : list nat) : list ed :=
   ESame ::
   (if k_ins c then flat_map (fun i => map (EIns i) (itab_strings (itab c))) (seq 0 (S (length w))) else []) ++
